@@ -25,10 +25,15 @@ ASSUMPTIONS = [
     '(C06_float_model_matches_samples)',
     'Performance: quantized inputs have positive-length notes, no two overlapping notes of one pitch, and start '
     'times ordered like their start steps (what a rendered-and-requantized sequence always satisfies)',
-    'PianorollSequence: a sequence whose last frame is empty is not canonical (to_sequence renders it one step '
-    'short: final_step = last index); see notes/C06.md',
+    'the models follow note_seq after notes/C06-fix-1.diff (ChordProgression.to_sequence honours start_step) and '
+    'notes/C06-fix-2.diff (PianorollSequence.to_sequence spans all frames); PR_LEGACY switches the second one',
 ]
 USE_VM = False
+
+# False: the pianoroll model follows note_seq AFTER notes/C06-fix-2.diff (to_sequence: final_step = len(self)), and
+# sequences that end in silence are canonical.  True: the code before it (final_step = last index when nothing is
+# open); then a canonical pianoroll must end with a non-empty frame.  One switch for model, generator and corpus.
+PR_LEGACY = False
 
 SPQS = [1, 2, 3, 4, 6, 8, 12, 24]
 SPSS = [10, 31, 100, 250]
@@ -70,6 +75,16 @@ def _sample_rows():
                 p.append(PE(ev[0], ev[1]))
             t = p.to_sequence().notes[0].start_time
             rows.append((2, [0, 0], sps, n2, s0, fl.me(t)))
+    # kind 3: steps_per_quarter_to_steps_per_second(spq, qpm) = the float in the time slot
+    # kind 4: quantize_to_step(t, sps) = step, with t in the qpm slot and the int sps as resolution
+    from note_seq import sequences_lib
+    for k, qpm in enumerate(qpms):
+        for spq in (1, 3, 4, 12, 24):
+            rows.append((3, fl.me(qpm), spq, 0, 0, fl.me(sequences_lib.steps_per_quarter_to_steps_per_second(spq, qpm))))
+    for k, sps in enumerate([10, 31, 100, 250]):
+        for n in (0, 1, 7, 12345, (1 << 31) - 1):
+            for t in ((n + 0.5) / sps, n / sps, (n + 0.49) / sps):
+                rows.append((4, fl.me(t), sps, sequences_lib.quantize_to_step(t, sps), 0, [0, 0]))
     return rows
 
 
@@ -89,6 +104,9 @@ def gen_coq():
     for k, v in consts:
         s += G.defz('C6_' + k, v)
     s += G.defstring('C6_NO_CHORD', chords_lib.NO_CHORD)
+    from note_seq import sequences_lib
+    cm, ce = fl.me(sequences_lib.QUANTIZE_CUTOFF)
+    s += G.defz('C6_QUANTIZE_CUTOFF_M', cm) + G.defz('C6_QUANTIZE_CUTOFF_E', ce)
     rows = _sample_rows()
     s += ('\n(* (kind, qpm (m, e), resolution, step, start_step, time (m, e)) read from the real to_sequence *)\n'
           'Definition float_samples : list (Z * (Z * Z) * Z * Z * Z * (Z * Z)) :=\n  [')
@@ -308,7 +326,7 @@ def model_input(case):
         rr = []
         ev = [[ord(c) for c in f] for f in ev]
     elif op == 'pianoroll':
-        pp = [p['min_pitch'], p['max_pitch'], p['split_repeats']]
+        pp = [p['min_pitch'], p['max_pitch'], p['split_repeats'], PR_LEGACY]
         rr = [r['velocity'], r['instrument'], r['program']]
     elif op in ('perf', 'metric'):
         ms = p['max_shift'] if op == 'perf' else inp['res'] * p['max_shift_quarters']
@@ -499,14 +517,14 @@ def _case(op, events, s0, res, qpm, ts, spb, p, r, canon):
     inp = {'events': events, 'start': s0, 'res': res, 'p': p, 'r': r, 'canon': canon}
     if op in RELATIVE:
         inp['qpm'] = float(qpm).hex()
-        inp['ts'] = None if (tuple(ts) == (4, 4) and (hash((s0, res, len(events))) & 1)) else list(ts)
+        inp['ts'] = None if (tuple(ts) == (4, 4) and (s0 + res + len(events)) % 2 == 0) else list(ts)
         inp['spb'] = spb
     return {'op': op, 'input': inp}
 
 
 def gen_mel_params(rng, spb, k):
     return {'search_start_step': k * spb, 'instrument': rng.choice([0, 0, 1, 3]),
-            'gap_bars': rng.choice([1, 1, 1, 2, 4, 0]), 'ignore_polyphonic_notes': True,
+            'gap_bars': rng.choice([1, 1, 1, 2, 4]), 'ignore_polyphonic_notes': True,
             'pad_end': rng.random() < 0.5, 'filter_drums': rng.random() < 0.7}
 
 
@@ -553,7 +571,7 @@ def gen_drums(rng):
     spq = rng.choice(SPQS)
     ts, spb = _bar_ts(rng, spq)
     k = rng.choice([0, 0, 0, 1, 2, 5])
-    p = {'search_start_step': k * spb, 'gap_bars': rng.choice([1, 1, 1, 2, 4, 0]), 'pad_end': rng.random() < 0.5,
+    p = {'search_start_step': k * spb, 'gap_bars': rng.choice([1, 1, 1, 2, 4]), 'pad_end': rng.random() < 0.5,
          'ignore_is_drum': rng.random() < 0.3}
     q = _qseq(spq=spq, ts=ts)
     t = k * spb + rng.randint(0, 2 * spb - 1)
@@ -611,6 +629,8 @@ def gen_pianoroll(rng):
     if rng.random() < 0.2:
         _qnote(q, rng.randint(0, 127), 80, max(0, s0 - 3), max(0, s0 - 3) + 2)     # before start_step: ignored
     q.total_quantized_steps = max(end, s0)
+    if not PR_LEGACY and rng.random() < 0.35:
+        q.total_quantized_steps += rng.choice([1, 1, 2, spb])          # the source ends in silence
     m = pianoroll_lib.PianorollSequence(quantized_sequence=q, start_step=s0, **p)
     ev = [[int(x) for x in e] for e in m]
     r = {'velocity': rng.choice([100, 1]), 'instrument': rng.choice([0, 2]), 'program': rng.choice([0, 5])}
@@ -683,7 +703,185 @@ def gen_noteperf(rng):
     return _case('noteperf', ev, s0, res, 120.0, (4, 4), None, p, r, True)
 
 
+# ---- structured generators of canonical values, independent of the library's extractors ----
+def _fresh_common(rng):
+    spq = rng.choice(SPQS)
+    ts, spb = _bar_ts(rng, spq)
+    return spq, ts, spb
+
+
+def direct_melody(rng, with_chords=False):
+    spq, ts, spb = _fresh_common(rng)
+    k = rng.choice([0, 0, 1, 2, 5])
+    p = gen_mel_params(rng, spb, k)
+    p['ignore_polyphonic_notes'] = rng.random() < 0.5
+    G = p['gap_bars'] * spb
+    s0 = (k + rng.choice([0, 0, 1, 3])) * spb
+    ev = [-2] * rng.randint(0, spb - 1)
+    n = rng.randint(1, 7)
+    for j in range(n):
+        ev.append(rng.randint(0, 127) if rng.random() < 0.15 else rng.randint(36, 96))
+        ev += [-2] * rng.choice([0, 0, 1, 2, 3, spb - 1, rng.randint(0, 2 * spb)])
+        if j < n - 1 and rng.random() < 0.5 and G >= 2:
+            r = min(G - 2, rng.choice([0, 1, G - 2, G - 2, rng.randint(0, G - 2)]))   # rest of r+1 steps < G
+            ev += [-1] + [-2] * r
+    if p['pad_end']:
+        if rng.random() < 0.5:
+            ev += [-2] * ((-len(ev)) % spb)                 # sustained up to the bar line
+        elif len(ev) % spb != 0:
+            j = len(ev)
+            ev += [-1] + [-2] * ((-j) % spb - 1)            # NOTE_OFF, then padding
+    r = {'velocity': rng.choice([100, 1, 127]), 'instrument': p['instrument'], 'program': rng.choice([0, 12])}
+    if not with_chords:
+        return _case('melody', ev, s0, spq, gen_qpm(rng), ts, spb, p, r, True)
+    ch = []
+    cur = rng.choice(CHORDS)
+    for _ in ev:
+        if rng.random() < 0.2:
+            cur = rng.choice(CHORDS)
+        ch.append(cur)
+    return _case('leadsheet', [ev, ch], s0, spq, gen_qpm(rng), ts, spb, p, {'velocity': r['velocity'],
+                                                                            'instrument': p['instrument']}, True)
+
+
+def direct_drums(rng):
+    spq, ts, spb = _fresh_common(rng)
+    k = rng.choice([0, 0, 1, 2, 5])
+    p = {'search_start_step': k * spb, 'gap_bars': rng.choice([1, 1, 1, 2, 4]), 'pad_end': rng.random() < 0.5,
+         'ignore_is_drum': rng.random() < 0.3}
+    G = p['gap_bars'] * spb
+    s0 = (k + rng.choice([0, 0, 1, 3])) * spb
+    ev = [[] for _ in range(rng.randint(0, spb - 1))]
+    n = rng.randint(1, 8)
+    for j in range(n):
+        ev.append(sorted(rng.sample([35, 36, 38, 42, 46, 49, 51, 0, 127], rng.randint(1, 3))))
+        if j < n - 1:
+            d = min(G - 1, rng.choice([0, 0, 1, 2, G - 1, G - 1, rng.randint(0, G - 1)]))   # d empty steps < G
+            ev += [[] for _ in range(d)]
+    if p['pad_end']:
+        ev += [[] for _ in range((-len(ev)) % spb)]
+    r = {'velocity': rng.choice([100, 1, 127]), 'instrument': rng.choice([9, 0]), 'program': 0}
+    return _case('drums', ev, s0, spq, gen_qpm(rng), ts, spb, p, r, True)
+
+
+def direct_chords(rng):
+    spq, ts, spb = _fresh_common(rng)
+    s0 = rng.choice([0, 0, 1, 2, 3, 7]) * spb
+    n = rng.choice([1, 2, spb, 2 * spb, rng.randint(1, 4 * spb)])
+    ev = []
+    cur = rng.choice(CHORDS)
+    for _ in range(n):
+        if rng.random() < 0.25:
+            cur = rng.choice(CHORDS)
+        ev.append(cur)
+    return _case('chords', ev, s0, spq, gen_qpm(rng), ts, spb, {'end_step': s0 + n}, {}, True)
+
+
+def direct_pianoroll(rng):
+    spq, ts, spb = _fresh_common(rng)
+    s0 = rng.choice([0, 0, 0, 1, 2, 4]) * spb
+    lo, hi = rng.choice([(21, 108), (21, 108), (0, 127), (40, 90), (60, 60)])
+    p = {'min_pitch': lo, 'max_pitch': hi, 'split_repeats': rng.random() < 0.7}
+    w = hi - lo + 1
+    pool = rng.sample(range(w), min(w, rng.randint(1, 5)))
+    ev = []
+    cur = set()
+    for _ in range(rng.randint(0 if rng.random() < 0.05 else 1, 3 * spb)):
+        for q in pool:
+            if rng.random() < 0.3:
+                cur ^= {q}
+        ev.append(sorted(cur))
+    while ev and not ev[-1] and (PR_LEGACY or rng.random() < 0.5):
+        ev.pop()
+    r = {'velocity': rng.choice([100, 1]), 'instrument': rng.choice([0, 2]), 'program': rng.choice([0, 5])}
+    return _case('pianoroll', ev, s0, spq, gen_qpm(rng), ts, spb, p, r, True)
+
+
+def _vbin(v, nb):
+    size = -(-127 // nb)
+    return (v - 1) // size + 1
+
+
+def encode_perf(notes, nb, ms, start):
+    """the canonical event list of a set of notes (pitch, vel, qs, qe): an independent statement of the format"""
+    srt = sorted(notes, key=lambda n: (n[2], n[0]))
+    tev = sorted([(n[2], i, 0) for i, n in enumerate(srt)] + [(n[3], i, 1) for i, n in enumerate(srt)])
+    out, cur, vb = [], start, 0
+    for step, i, off in tev:
+        d = step - cur
+        while d > ms:
+            out.append([3, ms]); d -= ms
+        if d > 0:
+            out.append([3, d])
+        cur = step
+        if nb and not off and _vbin(srt[i][1], nb) != vb:
+            vb = _vbin(srt[i][1], nb)
+            out.append([4, vb])
+        out.append([2 if off else 1, srt[i][0]])
+    return out
+
+
+def direct_perf(rng, op):
+    if op == 'perf':
+        res = rng.choice(SPSS)
+        unit, ts, spb = res // 4 + 1, None, None
+        s0 = rng.choice([0, 0, 0, 1, 5, res, 3 * res])
+        p = {'bins': rng.choice([0, 1, 2, 8, 32, 127, rng.randint(0, 127)]),
+             'max_shift': rng.choice([1, 2, 3, 7, 10, 100, 1000, rng.randint(1, 1000)]),
+             'instrument': rng.choice([None, None, 0])}
+        ms = p['max_shift']
+    else:
+        res = rng.choice(SPQS)
+        ts, spb = _bar_ts(rng, res)
+        unit = res
+        s0 = rng.choice([0, 0, 0, 1, 2, 4]) * spb
+        p = {'bins': rng.choice([0, 1, 2, 8, 32, 127, rng.randint(0, 127)]),
+             'max_shift_quarters': rng.choice([1, 2, 4, 4, 8]), 'instrument': rng.choice([None, None, 0])}
+        ms = res * p['max_shift_quarters']
+    notes = _poly_notes(rng, s0, unit, rng.randint(1, 9))
+    ev = encode_perf(notes, p['bins'], ms, s0)
+    r = {'velocity': rng.choice([100, 64, 1]), 'instrument': 0,
+         'obj_program': rng.choice([None, None, 7]), 'obj_is_drum': rng.choice([None, None, True, False])}
+    return _case(op, ev, s0, res, gen_qpm(rng), ts or (4, 4), spb, p, r, True)
+
+
+def direct_noteperf(rng):
+    res = rng.choice(SPSS)
+    s0 = rng.choice([0, 0, 0, 1, 5, res])
+    p = {'bins': rng.choice([1, 2, 8, 32, 127, rng.randint(1, 127)]), 'max_shift': rng.choice([1000, 300, 50]),
+         'max_duration': rng.choice([1000, 500, 20]), 'instrument': rng.choice([None, 0])}
+    ev = []
+    prev = None
+    for _ in range(rng.randint(0 if rng.random() < 0.05 else 1, 9)):
+        sh = rng.choice([0, 0, 1, 2, p['max_shift'], rng.randint(0, p['max_shift'])])
+        lo = prev if (sh == 0 and prev is not None) else 0
+        q = rng.randint(lo, 127)
+        top = _vbin(127, p['bins'])
+        ev.append([sh, q, rng.randint(1, top), rng.choice([1, 2, p['max_duration'], rng.randint(1, p['max_duration'])])])
+        prev = q
+    r = {'instrument': 0, 'obj_program': rng.choice([None, 7]), 'obj_is_drum': rng.choice([None, True, False])}
+    return _case('noteperf', ev, s0, res, 120.0, (4, 4), None, p, r, True)
+
+
+def gen_direct(rng, op):
+    if op == 'melody':
+        return direct_melody(rng)
+    if op == 'leadsheet':
+        return direct_melody(rng, with_chords=True)
+    if op == 'drums':
+        return direct_drums(rng)
+    if op == 'chords':
+        return direct_chords(rng)
+    if op == 'pianoroll':
+        return direct_pianoroll(rng)
+    if op in ('perf', 'metric'):
+        return direct_perf(rng, op)
+    return direct_noteperf(rng)
+
+
 def gen_canonical(rng, op):
+    if rng.random() < 0.5:
+        return gen_direct(rng, op)
     for _ in range(50):
         try:
             if op == 'melody':
@@ -751,6 +949,8 @@ def mutate(rng, case):
         inp['p']['end_step'] = inp['start'] + len(ev) + rng.choice([0, 0, 0, 1, -1])
     if rng.random() < 0.15:
         inp['start'] = max(0, inp['start'] + rng.choice([1, -1, 3]))
+    if 'gap_bars' in inp['p'] and rng.random() < 0.1:
+        inp['p']['gap_bars'] = 0              # degenerate configuration: outside the canonical claim
     return c
 
 
@@ -805,7 +1005,9 @@ def corpus():
     pp = {'min_pitch': 21, 'max_pitch': 108, 'split_repeats': True}
     out.append(rel('pianoroll', [[39, 43], [39], [], [39, 43], [43]], 16, 4, h97, dict(pp), dict(rr)))
     out.append(rel('pianoroll', [[0]], 0, 1, h133, dict(pp, min_pitch=60, max_pitch=60), dict(rr)))
-    out.append(rel('pianoroll', [[1], [], []], 0, 4, h120, dict(pp), dict(rr), canon=None))   # trailing silence
+    # trailing silence: to_sequence must span all frames (the final_step defect, notes/C06-fix-2.diff)
+    out.append(rel('pianoroll', [[1], [], []], 0, 4, h120, dict(pp), dict(rr), canon=None if PR_LEGACY else True))
+    out.append(rel('pianoroll', [[]], 16, 4, h97, dict(pp), dict(rr), canon=None if PR_LEGACY else True))
     # performances
     fp = {'bins': 8, 'max_shift': 3, 'instrument': None}
     pr = {'velocity': 100, 'instrument': 0, 'obj_program': None, 'obj_is_drum': None}
@@ -824,19 +1026,6 @@ def corpus():
                                             'r': {'instrument': 0, 'obj_program': None, 'obj_is_drum': None},
                                             'canon': True}})
     return out
-
-
-def shrink(case):
-    import copy
-    op, inp = case['op'], case['input']
-    ev = inp['events']
-    if op in ('chords', 'leadsheet', 'perf', 'metric'):
-        return                     # dropping events breaks canonicity in ways that need re-balancing
-    for i in range(len(ev) - 1, -1, -1):
-        c = copy.deepcopy(case)
-        del c['input']['events'][i]
-        c['input']['canon'] = inp.get('canon')
-        yield c
 
 
 META = {
